@@ -14,7 +14,9 @@
 (*   [k |-> "sx"]   the operand element at a computed position,            *)
 (*   [k |-> "bs"]   sum / max / min of a body over a range of a bound      *)
 (*                  variable (never unrolled),                             *)
-(*   [k |-> "let"]  a shared sub-value (the mean inside a variance).       *)
+(*   [k |-> "let"]  a shared sub-value (the mean inside a variance),        *)
+(*   [k |-> "if"]   a choice on an integer comparison of index expressions  *)
+(*                  (which operand of a Concat / Patch a position reads).   *)
 (* The templates are NOT trusted: Unroll instantiates a template at a      *)
 (* concrete position into an ordinary term, and TLC checks on the small    *)
 (* grid that for every operation, shape and position the unrolled template *)
@@ -46,6 +48,8 @@ BigOp(f, v, lo, hi, body) == [k |-> "bs", f |-> f, v |-> v, lo |-> lo, hi |-> hi
 Let(v, val, body) == [k |-> "let", v |-> v, val |-> val, body |-> body]
 RV(v) == [k |-> "rv", v |-> v]
 
+TIf(a, b, th, el) == [k |-> "if", a |-> a, b |-> b, t |-> th, e |-> el]          \* IF a < b THEN th ELSE el  (a, b index expressions)
+
 (* applications inside templates are built without folding (nothing is literal) *)
 TApp(f, args) == App(f, args)
 
@@ -55,6 +59,7 @@ Unroll(t, ienv, renv) ==
   CASE t.k \in {"q", "s", "c"} -> t
     [] t.k = "sx" -> Sym(t.t, IEval(t.ix, ienv) + 1)
     [] t.k = "rv" -> renv[t.v]
+    [] t.k = "if" -> IF IEval(t.a, ienv) < IEval(t.b, ienv) THEN Unroll(t.t, ienv, renv) ELSE Unroll(t.e, ienv, renv)
     [] t.k = "let" -> Unroll(t.body, ienv, IF renv = <<>> THEN (t.v :> Unroll(t.val, ienv, renv)) ELSE (t.v :> Unroll(t.val, ienv, renv)) @@ renv)
     [] t.k = "bs" -> LET seq == [i \in 1..(t.hi - t.lo + 1) |-> Unroll(t.body, (t.v :> (t.lo + i - 1)) @@ ienv, renv)]
                      IN (CASE t.f = "sum" -> SumL(Zero, seq) [] t.f = "max" -> MaxL(seq) [] t.f = "min" -> MinL(seq))
@@ -111,6 +116,44 @@ TMatMul(m, n, kk) ==
 TBiasGrad(B, O) == BigOp("sum", "q", 0, B - 1, SymAt("g", IAdd(IMul(IV("q"), IL(O)), P)))
 (* the same under the recorded deviation broadcast_grad_mean *)
 TBiasGradAsIs(B, O) == TApp("div", <<TBiasGrad(B, O), QI(B)>>)
+
+(* ---- data movement: which operand element an output position reads ---- *)
+StrideOf(dims, k) == Prod(SubSeq(dims, k + 1, Len(dims)))
+Coord(dims, k, p) == IMod(IDiv(p, IL(StrideOf(dims, k))), IL(dims[k]))             \* k-th coordinate (1-based dim) of position p
+RECURSIVE FlatIx(_, _, _)
+FlatIx(dims, coords, k) == IF k > Len(dims) THEN IL(0) ELSE IAdd(IMul(coords[k], IL(StrideOf(dims, k))), FlatIx(dims, coords, k + 1))
+OutCoords(odims) == [k \in DOMAIN odims |-> Coord(odims, k, P)]
+
+TSame(t) == SymAt(t, P)                                                               \* Reshape / Flatten / Squeeze / UnSqueeze keep the row-major order
+TTranspose(dims) ==
+  LET r == Len(dims)
+      od == [k \in 1..r |-> IF k = r - 1 THEN dims[r] ELSE IF k = r THEN dims[r - 1] ELSE dims[k]]
+      c == OutCoords(od)
+  IN SymAt("a", FlatIx(dims, [k \in 1..r |-> IF k = r - 1 THEN c[r] ELSE IF k = r THEN c[r - 1] ELSE c[k]], 1))
+(* ranges: one <<lo, hi>> per dimension (hi exclusive) *)
+SliceDims(ranges) == [k \in DOMAIN ranges |-> ranges[k][2] - ranges[k][1]]
+TSlice(dims, ranges) ==
+  LET c == OutCoords(SliceDims(ranges))
+  IN SymAt("a", FlatIx(dims, [k \in DOMAIN dims |-> IAdd(c[k], IL(ranges[k][1]))], 1))
+TBroadcastTo(dims, target) ==
+  LET c == OutCoords(target)  off == Len(target) - Len(dims)
+  IN SymAt("a", FlatIx(dims, [k \in DOMAIN dims |-> IF dims[k] = 1 THEN IL(0) ELSE c[k + off]], 1))
+(* Concat of a and b along dim (1-based) *)
+TConcat(adims, bdims, dim) ==
+  LET od == [adims EXCEPT ![dim] = adims[dim] + bdims[dim]]
+      c == OutCoords(od)
+  IN TIf(c[dim], IL(adims[dim]),
+         SymAt("a", FlatIx(adims, c, 1)),
+         SymAt("b", FlatIx(bdims, [c EXCEPT ![dim] = IAdd(c[dim], IL(0 - adims[dim]))], 1)))
+(* Patch: the block `ranges` of a replaced by u (u's dims = SliceDims(ranges)) *)
+TPatch(dims, ranges) ==
+  LET c == OutCoords(dims)
+      inner == SymAt("u", FlatIx(SliceDims(ranges), [k \in DOMAIN dims |-> IAdd(c[k], IL(0 - ranges[k][1]))], 1))
+      RECURSIVE W(_)
+      W(k) == IF k > Len(dims) THEN inner
+              ELSE TIf(c[k], IL(ranges[k][1]), SymAt("a", P), TIf(c[k], IL(ranges[k][2]), W(k + 1), SymAt("a", P)))
+  IN W(1)
+TEye(n) == LET i == IDiv(P, IL(n)) j == IMod(P, IL(n)) IN TIf(i, j, Zero, TIf(j, i, Zero, One))
 
 (* SGD: w - lr * g, with g = c for the graph y = w * c *)
 TSgd(lr) == TApp("sub", <<SymAt("w", P), TApp("mul", <<lr, SymAt("c", P)>>)>>)
